@@ -562,6 +562,28 @@ func captureSet() []item {
 		}
 		add("def-call-last", n, "def "+n+": 7; "+n)
 		add("def-unused", n, "def "+n+": 7; 8")
+		// the definition stands further along the pipe spine: behind bindings, a pipe, a
+		// label, inside parentheses, try, if and reduce bodies (the rewrite walks that spine
+		// to find the last stage and the definitions in scope there)
+		add("def-after-bind-call-last", n, "1 as $x | def "+n+": 7; "+n)
+		add("def-after-destructure-call-last", n, "[1] as [$x] | def "+n+": 7; "+n)
+		add("def-after-destructure-alt-call-last", n, "[1] as [$x] ?// $x | def "+n+": 7; "+n)
+		add("def-after-two-binds-call-last", n, "1 as $x | 2 as $y | def "+n+": 7; "+n)
+		add("def-after-pipe-call-last", n, "1 | def "+n+": 7; "+n)
+		add("def-after-bind-pipe-call-last", n, "1 as $x | 2 | def "+n+": 7; "+n)
+		add("def-after-pipe-bind-call-last", n, "1 | 2 as $x | def "+n+": 7; "+n)
+		add("def-after-label-call-last", n, "label $l | def "+n+": 7; "+n)
+		add("def-in-parens-call-last", n, "(def "+n+": 7; "+n+")")
+		add("def-in-parens-after-bind-call-last", n, "1 as $x | (def "+n+": 7; "+n+")")
+		add("def-after-bind-call-after-pipe", n, "1 as $x | def "+n+": 7; 2 | "+n)
+		add("def-before-bind-call-last", n, "def "+n+": 7; 1 as $x | "+n)
+		add("def-before-bind-call-after-pipe", n, "def "+n+": 7; 1 as $x | 2 | "+n)
+		add("def-after-bind-comma-last", n, "1 as $x | def "+n+": 7; 8, "+n)
+		add("def1-after-bind-call-last", n, "1 as $x | def "+n+"(a): a; "+n+"(8)")
+		add("def-in-try-call-last", n, "try (def "+n+": 7; "+n+") catch 0")
+		add("def-in-if-call-last", n, "if true then def "+n+": 7; "+n+" else 0 end")
+		add("def-in-reduce-update", n, "reduce 1 as $x (0; def "+n+": 7; "+n+")")
+		add("def-after-bind-in-def-body", n, "def f: 1 as $x | def "+n+": 7; "+n+"; f")
 		add("def-call-inner", n, "def "+n+": 7; ["+n+"]")
 		add("def1-call-last", n, "def "+n+"(a): a; "+n+"(8)")
 		add("def1v-call-last", n, "def "+n+"($a): $a; "+n+"(8)")
